@@ -247,8 +247,8 @@ class AddressAg(AddressBase):
 
     def _line__prefix(self, line: str) -> None:
         """Set attributes for prefix: A.B.C.D/LEN."""
-        self._addrgroup = ""
         ipnet = h.prefix_to_ipnet(line)
+        self._addrgroup = ""
         wildcard = ipnet.with_hostmask.replace("/", " ")
 
         if ipnet.prefixlen == 32:
@@ -268,8 +268,9 @@ class AddressAg(AddressBase):
         if line == "0.0.0.0 0.0.0.0" and self._platform == "ios":
             raise ValueError(f"{line!r} is denied for platform={self._platform!r}")
 
+        wildcard_o = Wildcard.fsubnet(line, platform=self._platform, max_ncwb=self.max_ncwb)
         self._addrgroup = ""
-        self._wildcard = Wildcard.fsubnet(line, platform=self._platform, max_ncwb=self.max_ncwb)
+        self._wildcard = wildcard_o
 
         self._type = "subnet"
         if isinstance(self.ipnet, IPv4Network):
